@@ -6,7 +6,9 @@
 (* is judged entry-wise against the module's operator for that call and,   *)
 (* independently of it, clause-wise on the observed output (conservation   *)
 (* of the marginal, mixture frequency, identity at proportion 0).  The     *)
-(* verdict for a record is the set of violated clause names.               *)
+(* verdict for a record is the set of violated clause names.  Records      *)
+(* that carry encodings of the argument objects before / after the call    *)
+(* are also judged for leaving the caller's objects unchanged (FArgs).      *)
 (*                                                                         *)
 (* Proportions: the functions receive the proportions fs of the source     *)
 (* populations as doubles.  A vector in the simplex (all >= 0, sum <= 1,   *)
@@ -127,7 +129,20 @@ FReorder(r) ==
     ELSE LET exp == PhiReorder(r.in.phi, r.in.perm) IN
          IF ~ShapeOK(r.out.phi, exp.sh) THEN {"ReorderShape"} ELSE F("ReorderData", r.out.phi.d = exp.d)
 
-Failed(r) ==
+\* ---- state / aliasing: every function is a function of the VALUES of its arguments ----
+\* r.out.args.before / .after: bit-exact encodings <<[name, kind, dtype, sh, v]>> of the argument objects (density,
+\* grids, proportions, population numbers, order) as the caller wrote them and as they are after the call.  The phi of
+\* the phi_*D_admix_* pulse functions, documented as altered in place, is not listed.  Records with in.nth = 2 carry the
+\* second of two consecutive calls with the same argument objects; the clauses above judge it against r.in, i.e. against
+\* the values the caller wrote.
+FArgs(r) ==
+    IF "args" \notin DOMAIN r.out THEN {}
+    ELSE LET b == r.out.args.before
+             a == r.out.args.after
+         IN  IF Len(a) # Len(b) THEN {"ArgumentsUnchanged"}
+             ELSE {"ArgumentsUnchanged[" \o b[k].name \o "]" : k \in {j \in 1..Len(b) : a[j] # b[j]}}
+
+FOp(r) ==
     CASE r.op = "admix_new" -> FAdmix(r)
       [] r.op = "split"     -> FSplit(r)
       [] r.op = "split1d"   -> FSplit1D(r)
@@ -136,6 +151,7 @@ Failed(r) ==
       [] r.op = "filter"    -> FFilter(r)
       [] r.op = "reorder"   -> FReorder(r)
       [] OTHER              -> {"UnknownOp"}
+Failed(r) == FOp(r) \cup FArgs(r)
 
 Init == i = 0
 Next == /\ i < Len(Trace)
